@@ -17,6 +17,10 @@ REPO = os.environ.get("VERIF_REPO", "/repo")
 FILES = ["StringDictionaryHASHRPDAC.cpp", "StringDictionaryHASHRPF.cpp", "StringDictionaryHASHHF.cpp", "StringDictionaryHASHUFFDAC.cpp",
          "Hash/Hash.cpp", "Hash/Hashdh.cpp", "Hash/HashBdh.cpp", "Hash/HashBBdh.cpp", "Hash/HashDAC.cpp"]
 
+ALWAYS = {"StringDictionaryHASHRPDAC.cpp": ["StringDictionaryHASHRPDAC::locate"], "StringDictionaryHASHRPF.cpp": ["StringDictionaryHASHRPF::locate"],
+          "Hash/Hash.cpp": ["Hash::insert"], "Hash/Hashdh.cpp": ["Hashdh::search"], "Hash/HashBdh.cpp": ["HashBdh::search"],
+          "Hash/HashBBdh.cpp": ["HashBBdh::search"], "Hash/HashDAC.cpp": ["HashDAC::insert", "HashDAC::search"]}
+
 BITS = {k: 8 * v for k, v in TS.SIZES.items()}
 
 
@@ -37,6 +41,10 @@ def functions_with_probe(path):
         prev = [h for h in heads if h[0] < m.start()]
         if prev and prev[-1][1] not in out:
             out.append(prev[-1][1])
+    # the functions the hashing models speak about are always examined (their probe expression may live in a helper)
+    for fn in ALWAYS.get(path, []):
+        if fn not in out and re.search(r"\b%s\s*\(" % re.escape(fn), src):
+            out.append(fn)
     return out
 
 
@@ -59,7 +67,11 @@ def strip_casts(n):
 
 def is_tsize(n):
     n = strip_casts(n)
-    return n.get("kind") == "MemberExpr" and n.get("name") == "tsize"
+    if n.get("kind") == "MemberExpr":
+        return str(n.get("name", "")).endswith("tsize")
+    if n.get("kind") == "DeclRefExpr":
+        return str(n.get("referencedDecl", {}).get("name", "")).endswith("tsize")
+    return False
 
 
 def arith_nodes(n, acc):
@@ -81,6 +93,19 @@ def walk(n, found):
         walk(c, found)
 
 
+def callees(n, acc):
+    """names of the functions called inside the subtree (free functions and static helpers)"""
+    if n.get("kind") == "CallExpr" and n.get("inner"):
+        f = strip_casts(n["inner"][0])
+        if f.get("kind") == "DeclRefExpr" and f.get("referencedDecl", {}).get("kind") == "FunctionDecl":
+            acc.add(f["referencedDecl"]["name"])
+    for c in n.get("inner", []) or []:
+        callees(c, acc)
+
+
+HELPER_SKIP = {"bitwisehash", "step_value", "nearest_prime"}     # the hash functions themselves (parameters of the model)
+
+
 def translate():
     TS.REPO = REPO
     TS.CLANG = ["clang++", "-std=c++17", "-fsyntax-only", "-I" + REPO, "-I" + REPO + "/libcds/includes", "-w"]
@@ -90,8 +115,17 @@ def translate():
             out, err, rc = TS.run_clang(f, fn)
             objs = TS.parse_multi(out)
             found = []
+            called = set()
             for o in objs:
                 walk(o, found)
+                callees(o, called)
+            # the probe position may be computed by a small helper (e.g. an inline function of a header): its expression counts
+            # for the caller; the helper's parameter types decide the widths
+            for h in sorted(called - HELPER_SKIP):
+                hout, herr, hrc = TS.run_clang(f, h)
+                for o in TS.parse_multi(hout):
+                    if o.get("kind") == "FunctionDecl" and o.get("name") == h:
+                        walk(o, found)
             if not found:
                 problems.append("%s: no typed `%% tsize` expression found in %s (clang rc=%s %s)" % (f, fn, rc, err[-200:].replace("\n", " ")))
                 continue
